@@ -19,7 +19,7 @@ LEVEL = 'proof'
 
 logging.disable(logging.CRITICAL)
 
-MODS = ['Base.Bytes', 'Model.SpecCodec', 'Model.CodecsRegistry', 'Gen.C18Registry', 'Model.CodecsBase', 'Gen.C18Tables', 'Model.CodecsL2cap', 'Model.CodecsRfcomm', 'Model.CodecsSdp', 'Model.CodecsUuid', 'Model.CodecsAv']
+MODS = ['Base.Bytes', 'Model.SpecCodec', 'Model.CodecsRegistry', 'Gen.C18Registry', 'Model.CodecsXfields', 'Gen.C18XRegistry', 'Model.CodecsBase', 'Gen.C18Tables', 'Model.CodecsL2cap', 'Model.CodecsRfcomm', 'Model.CodecsSdp', 'Model.CodecsUuid', 'Model.CodecsAv']
 
 
 def regen(ctx):
@@ -29,6 +29,9 @@ def regen(ctx):
     ctx.write_gen('C18Registry', text)
     ctx.extra['registry_translated'] = len(translated)
     ctx.extra['registry_untranslated'] = untranslated
+    xtext, xclasses = c18_registries.translate_x()
+    ctx.write_gen('C18XRegistry', xtext)
+    ctx.extra['xregistry_classes'] = len(xclasses)
 
 
 # ----------------------------------------------------------------------------- helpers
@@ -1600,6 +1603,86 @@ def sec_registry_model(ctx, B):
                       exp2, 'field-driven class truncated PDU', {'class': e.cls.__name__, 'data': d.hex()})
 
 
+# ----------------------------------------------------------------------------- every field-driven class vs the extended field codec
+HDR_LEN = {'l2cap': 4, 'att': 1, 'smp': 1, 'sdp': 5, 'avdtp': 0}
+
+
+def sec_xregistry_model(ctx, B):
+    """the classes of Gen/C18XRegistry.v (all five field-driven registries, custom field parsers
+    included): Model.CodecsXfields.xserialize / xparse against the real classes, on values and on
+    truncated payloads"""
+    from translate import c18_registries as R
+    rng = ctx.rng.fork('xregistry-model')
+    _, xclasses = R.translate_x()
+    dflt = '(mkx 9 0 EmptyString [])'
+    for idx, (e, xs) in enumerate(xclasses):
+        names = [f[0] for f in e.fields]
+        custom = any(x[0] != 'XA' for x in xs)
+        hl = HDR_LEN[e.proto]
+        for k in range(ctx.n(3 if custom else 1, 60 if custom else 20)):
+            kw = R.gen_kwargs(rng, e.cls.__name__, e.fields)
+            ok, obj = attempt(e.build, dict(kw))
+            okb, b = attempt(lambda: R.payload_bytes(e, obj)) if ok else (False, None)
+            try:
+                terms = [R.x_value(x, kw[n]) for x, n in zip(xs, names)]
+            except R.Unsupported:
+                ctx.count('xregistry-model.unsupported-value')
+                continue
+            vs = '[' + '; '.join(t[0] for t in terms) + ']'
+            expect = None
+            if ok and okb:
+                payload = b[hl:]
+                prev0 = b[hl - 1] if hl else 0
+                okp, p = attempt(e.parse, b)
+                got = None
+                if okp and type(p) is e.cls:
+                    try:
+                        got = some([R.x_value(x, getattr(p, n))[1] for x, n in zip(xs, names)])
+                    except R.Unsupported:
+                        got = SKIPV
+                expect = some((list(payload), got))
+            else:
+                prev0 = 0
+            ctx.case(('xmodel', e.cls.__name__, k, vs[:1500]), custom)
+            ctx.count(f'xregistry-model.{e.proto}.value')
+            B.add(f'let c := nth {idx} C18XRegistry.xclasses {dflt} in match xserialize (x_fields c) {vs} with '
+                  f'Some b => Some (b, match xparse (x_fields c) {prev0} b with Some (vs2, _) => Some vs2 | None => None end) '
+                  f'| None => None end', expect, 'field-driven class (extended codec) value', {'class': e.cls.__name__})
+            if ok and okb and custom and len(b) > hl and k % 2 == 0:
+                d = b[:hl + rng.below(len(b) - hl)]
+                okp, p = attempt(e.parse, d)
+                exp2 = None
+                if okp and type(p) is e.cls:
+                    try:
+                        exp2 = some([R.x_value(x, getattr(p, n))[1] for x, n in zip(xs, names)])
+                    except R.Unsupported:
+                        exp2 = SKIP
+                ctx.case(('xmodel-rx', e.cls.__name__, d), okp)
+                ctx.count(f'xregistry-model.{e.proto}.truncated')
+                has_caps = any(x[0] == 'XCaps' for x in xs)
+
+                has_cids = any(x[0] == 'XU16Lenient' for x in xs)
+
+                def extra(m, exp2=exp2, has_caps=has_caps, has_cids=has_cids, name=e.cls.__name__, d=d):
+                    if exp2 is SKIP or m == norm(exp2):
+                        return
+                    # a truncated MEDIA_CODEC capability (category 7) is parsed further by
+                    # MediaCodecCapabilities.from_bytes / a2dp, which may raise: outside the TLV model
+                    if has_caps and exp2 is None and '(\'VInt\', 7)' in repr(m):
+                        ctx.count('xregistry-model.truncated-media-codec-capability')
+                        return
+                    # parse_cid_list raises when an earlier lenient field already stepped beyond the end of
+                    # the data (struct.unpack_from with offset > len); the model only sees "nothing left"
+                    if has_cids and exp2 is None:
+                        ctx.count('xregistry-model.truncated-before-cid-list')
+                        return
+                    ctx.disagree('field-driven class (extended codec) truncated payload', {'class': name, 'data': d.hex()},
+                                 repr(m)[:400], repr(norm(exp2))[:400])
+                B.add(f'let c := nth {idx} C18XRegistry.xclasses {dflt} in match xparse (x_fields c) {prev0} {cb(d[hl:])} with '
+                      f'Some (vs2, _) => Some vs2 | None => None end', SKIP, 'field-driven class (extended codec) truncated payload',
+                      {'class': e.cls.__name__, 'data': d.hex()}, extra=extra)
+
+
 # ----------------------------------------------------------------------------- parse-driven oracle (no model)
 def _same_value(a, b):
     """equality of two parsed objects: the class's own __eq__ when it defines one, else the
@@ -1979,4 +2062,4 @@ def run(ctx):
 
 
 SECTIONS[:] = [sec_ertm, sec_l2cap_misc, sec_rfcomm, sec_sdp, sec_uuid, sec_address, sec_adv, sec_av, sec_registries,
-               sec_registry_model, sec_parse_driven]
+               sec_registry_model, sec_xregistry_model, sec_parse_driven]
